@@ -701,7 +701,67 @@ impl Scenario for AnswersScn {
     }
 }
 
+/// `ZoneTree`: which zone is in charge of a query name. Zones with nested,
+/// sibling and far-apart apexes (also in another class) are inserted in a
+/// drawn order; for every probe name `find_zone` must
+/// return the zone whose apex is the longest suffix of the name.
+fn check_zone_tree() {
+    use domain::base::iana::Class;
+    use domain::zonetree::{ZoneBuilder, ZoneTree};
+    const APEXES: [&str; 9] = [".", "example.", "b.example.", "a.b.example.", "d.c.a.b.example.", "x.example.", "y.x.example.", "other.", "deep.down.in.other."];
+    let mut tree = ZoneTree::new();
+    let mut present: BTreeSet<(String, bool)> = BTreeSet::new(); // (apex, is CH)
+    let n = 1 + sim::draw("tree.n_zones", 6);
+    for _ in 0..n {
+        let apex = *sim::pick("tree.apex", &APEXES);
+        let ch = sim::chance("tree.class_ch", 1, 6);
+        let class = if ch { Class::CH } else { Class::IN };
+        let zone = ZoneBuilder::new(stored_name(apex), class).build();
+        let res = tree.insert_zone(zone);
+        ev!("tree insert {} {:?} -> {:?}", apex, class, res.is_ok());
+        let fresh = present.insert((apex.to_string(), ch));
+        if res.is_ok() != fresh {
+            sim::violation(P8, "zone-tree", "insert-zone-result".to_string(), format!("insert_zone({} {:?}) returned {:?}, zone was {} present", apex, class, res.is_ok(), if fresh { "not" } else { "already" }));
+            return;
+        }
+    }
+    // (`ZoneTree::remove_zone` is left alone: as pinned it drops every zone
+    // of the class - it removes the child of the first label on the way down,
+    // which is always the root label - an observation outside C08, see
+    // DESIGN section 6.)
+    sim::stat("probe.zone_tree_checked");
+    let mut probes: Vec<String> = APEXES.iter().map(|s| s.to_string()).collect();
+    for extra in ["www.example.", "c.a.b.example.", "www.c.a.b.example.", "w.d.c.a.b.example.", "a.example.", "z.y.x.example.", "down.in.other.", "in.other.", "w.deep.down.in.other.", "nothing.", "b.", "xexample."] {
+        probes.push(extra.to_string());
+    }
+    for q in &probes {
+        for ch in [false, true] {
+            let want = present
+                .iter()
+                .filter(|(a, c)| *c == ch && (a == "." || q == a || q.ends_with(&format!(".{}", a))))
+                .map(|(a, _)| a.clone())
+                .max_by_key(|a| if a == "." { 0 } else { a.matches('.').count() });
+            let got = tree.find_zone(&stored_name(q), if ch { Class::CH } else { Class::IN }).map(|z| owner_str(z.apex_name()));
+            if got != want {
+                sim::violation(
+                    P8,
+                    "zone-tree",
+                    "find-zone-wrong".to_string(),
+                    format!("zones {:?}: find_zone({} {}) gave {:?}, the zone in charge is {:?}", present, q, if ch { "CH" } else { "IN" }, got, want),
+                );
+                return;
+            }
+        }
+    }
+}
+
 async fn run(_tier: Tier) {
+    if sim::chance("zone_tree", 1, 4) {
+        check_zone_tree();
+        if sim::stopped() {
+            return;
+        }
+    }
     let all = universe_names();
     let n_names = 5 + sim::draw("focus.n_names", 8) as usize;
     let mut pool = all.clone();
